@@ -84,12 +84,12 @@ func (s *c13Space) valuesOf(t *mtype) []*mval {
 				out = append(out, vAO("a", x, "b", y))
 			}
 		}
-	case tOpt:
+	case mkOpt:
 		out = append(out, vNone())
 		for _, x := range s.valuesOf(t.Elem) {
 			out = append(out, vSome(x))
 		}
-	case tList:
+	case mkList:
 		el := s.valuesOf(t.Elem)
 		out = append(out, vL())
 		for _, x := range el {
@@ -121,9 +121,9 @@ func (s *c13Space) valuesOf(t *mtype) []*mval {
 // sizeOf is |valuesOf(t)| without materialising the set.
 func (s *c13Space) sizeOf(t *mtype) int {
 	switch t.K {
-	case tOpt:
+	case mkOpt:
 		return 1 + s.sizeOf(t.Elem)
-	case tList:
+	case mkList:
 		n := s.sizeOf(t.Elem)
 		if n > 100000 {
 			return n * n
@@ -442,9 +442,9 @@ func freshFor(t *mtype) *mval {
 		return vRange(7, 9)
 	case tAnyObj:
 		return vAO("z", vI(7))
-	case tOpt:
+	case mkOpt:
 		return vSome(freshFor(t.Elem))
-	case tList:
+	case mkList:
 		return vL(freshFor(t.Elem))
 	case tObj:
 		o := &mval{K: mObj}
@@ -489,7 +489,7 @@ func applyMut(op mutOp, m *mval, t *mtype, v *value.Value) (ok bool, err string)
 		return out
 	}
 	var et *mtype
-	if t != nil && (t.K == tList || t.K == tOpt) {
+	if t != nil && (t.K == mkList || t.K == mkOpt) {
 		et = t.Elem
 	}
 	switch op.Kind {
@@ -666,15 +666,15 @@ func jsonLawApplies(v *mval, t *mtype) bool {
 			}
 		}
 		return true
-	case tOpt:
-		if t.Elem.K == tOpt || t.Elem.K == tNull {
+	case mkOpt:
+		if t.Elem.K == mkOpt || t.Elem.K == tNull {
 			return false
 		}
 		if v.Inner == nil {
 			return true
 		}
 		return jsonLawApplies(v.Inner, t.Elem)
-	case tList:
+	case mkList:
 		for _, e := range v.Elems {
 			if !jsonLawApplies(e, t.Elem) {
 				return false
@@ -755,7 +755,7 @@ func c13JSON(tier string, idx int, r *Result) {
 	s := c13Universe(tier)
 	t := s.types[idx]
 	vals := s.valuesOf(t)
-	hasToJSON := t.K == tList || t.K == tObj || t.K == tAnyObj
+	hasToJSON := t.K == mkList || t.K == tObj || t.K == tAnyObj
 	if !hasToJSON {
 		r.Note("type-has-no-to_json", 1)
 		return
@@ -981,7 +981,7 @@ type progBuilder struct {
 }
 
 func (b *progBuilder) expr(v *mval, t *mtype) string {
-	if v.K == mList && len(v.Elems) == 0 && t != nil && t.K == tList && !b.top {
+	if v.K == mList && len(v.Elems) == 0 && t != nil && t.K == mkList && !b.top {
 		// an empty list literal has no element type of its own: the analyzer only accepts it
 		// directly under an annotation
 		b.n++
@@ -1169,7 +1169,7 @@ func c13ProgJSON(tier string, idx int, r *Result) {
 	t := s.types[p.ti]
 	v := s.valuesOf(t)[p.i]
 	// ranges: to_json of a list of ranges and range.to_string are member-table matters (C18)
-	hasToJSON := (t.K == tList || t.K == tObj || t.K == tAnyObj) && firstRangeOrKind(v) != "contains-range"
+	hasToJSON := (t.K == mkList || t.K == tObj || t.K == tAnyObj) && firstRangeOrKind(v) != "contains-range"
 	hasToString := t.K != tObj && t.K != tNull && t.K != tRange
 	pb := &progBuilder{}
 	bind := bindStmt("a", v, t, pb)
@@ -1268,7 +1268,7 @@ func c13ProgClone(tier string, idx int, r *Result) {
 	v := s.valuesOf(t)[p.i]
 	var mut string
 	switch {
-	case t.K == tList:
+	case t.K == mkList:
 		f, _ := (&progBuilder{}).exprNoPre(freshFor(t.Elem), t.Elem)
 		if f == "" {
 			r.Note("prog-clone-inapplicable:no-literal-for-fresh-element", 1)
